@@ -176,10 +176,13 @@ def run_corr(ctx, cases, oracle=None, label='sched'):
     nmis = 0
     for r, tr in zip(results, traces):
         ok, why = wf_graph(r['graph'])
-        if not ok:
-            ctx.broken('hypothesis wf_graph fails on the graph built by dag.Construct',
-                       why, {'source': 'correspondence', 'case': strip(r)})
         mm = first_mismatch(r['obs'], tr)
+        if not ok:
+            # the hypothesis of the scheduler theorems fails on the graph the
+            # real Construct built: treated like a parting of model and code
+            # (the oracle, which closes the declared edges itself, searches
+            # these histories and their continuations for a failing input)
+            mm = (mm[0] if mm else 0, ['wf_graph'], {'wf_graph': why}, {})
         r['mismatch'] = mm
         if mm:
             nmis += 1
